@@ -90,9 +90,9 @@ Proof. exact lookup_name_root_not_dotdot. Qed.
 Example C06_nonvacuous : Inv ex_E0 17 12 (init_state ex_host 12).
 Proof. exact ex_inv. Qed.
 Example C06_nonvacuous_run :
-  let rf := snd (run (mkCfg true false false false false true 2 false) (start ex_host 12) ex_history) in
+  let rf := snd (run (mkCfg true false false false false true 2 true false) (start ex_host 12) ex_history) in
   get (p_host (r_p rf)) 10 = get ex_host 10 /\ get (p_host (r_p rf)) 11 = get ex_host 11 /\
-  map fst (fst (run (mkCfg true false false false false true 2 false) (start ex_host 12) ex_history)) <> [].
+  map fst (fst (run (mkCfg true false false false false true 2 true false) (start ex_host 12) ex_history)) <> [].
 Proof. exact ex_run_outside_unchanged. Qed.
 
 Print Assumptions C06_name_predicate.
